@@ -3,7 +3,8 @@
 (* all nine CIGAR kinds, 0-3 operations, odd and even (and empty) sequences over several of   *)
 (* the sixteen base codes, qualities 0/10/93, tag bytes (also ending in 0x0A), long names.    *)
 EXTENDS Bam, Json
-CONSTANTS MaxRecs
+CONSTANTS MaxRecs,
+          Pick       \* the templates in use (indices into T)
 VARIABLES recs
 vars == <<recs>>
 Name(n) == [i \in 1..n |-> 96 + ((i - 1) % 26) + 1]     \* a, b, c, ...
@@ -18,7 +19,7 @@ T == <<
   [ref |-> 0,  pos |-> 11,  name |-> Name(220), mapq |-> 4, flag |-> 16, cigar |-> <<<<4, 1>>, <<0, 1>>>>,              seq |-> <<8, 4, 2>>,       qual |-> <<1, 1, 1>>,   tags |-> <<>>]
 >>
 Init == recs = <<>>
-Add == Len(recs) < MaxRecs /\ \E i \in DOMAIN T : recs' = Append(recs, T[i])
+Add == Len(recs) < MaxRecs /\ \E i \in Pick : recs' = Append(recs, T[i])
 Next == Add
 Spec == Init /\ [][Next]_vars
 
